@@ -107,6 +107,7 @@ void modelPosition(const std::vector<std::string>& tok, Model& m) {
     ref::Pos r;
     m.legal = ref::fromFEN(TextIO::toFEN(p), r) && fz::plausibleMaterial(r);
     if (fz::excludeClocks() && !fz::clocksSane(p.getHalfMoveClock(), p.getFullMoveCounter())) m.legal = false;
+    r.hmc = 0; r.fmc = 1; // only legality is asked of refchess here
     if (idx < n && tok[idx++] == "moves") {
         for (size_t i = idx; i < n; i++) {
             Move mv = TextIO::uciStringToMove(tok[i]);
